@@ -1,4 +1,5 @@
 from .c20 import C20
 from .c03 import C03
 from .c13 import C13
-REGISTRY = {p.id: p for p in [C20(), C03(), C13()]}
+from .hs import C15, C16, C17
+REGISTRY = {p.id: p for p in [C20(), C03(), C13(), C15(), C16(), C17()]}
